@@ -36,7 +36,8 @@ class C11(EngineProp):
         for _ in range(240 if tier == 'quick' else 3000):
             out.append({'mode': 'tcp', 'role': rng.choice(['client', 'server']), 'profile': 'tcp-cut', 'cut': rng.choice(['eof', 'reset', 'timeout']),
                         'partial': rng.randint(0, 40), 'rr': rng.randint(0, 2), 'streams': rng.randint(0, 2), 'incoming': rng.randint(0, 2),
-                        'producers': rng.choice([0, 1, 1, 2]), 'producer_kind': rng.choice(['gen', 'agen']), 'producer_when': rng.choice(['early', 'same-read'])})
+                        'producers': rng.choice([0, 1, 1, 2]), 'producer_kind': rng.choice(['gen', 'agen']), 'producer_when': rng.choice(['early', 'same-read']),
+                        'late_rr': rng.choice([0, 0, 1, 2]), 'late_streams': rng.choice([0, 0, 1])})
         return out
 
     def run_impl(self, case):
@@ -133,16 +134,29 @@ class C11(EngineProp):
         except Exception:
             pass
         await loop.settle()
+        # requests issued on the endpoint after the connection went away (the application has not noticed yet, or retries from on_close)
+        # are pending when the application finally calls close(): they must be failed then
+        table_at_loss = sorted(ep._stream_control._streams.keys())
+        late_futs = [ep.request_response(Payload(b'late-rr%d' % i)) for i in range(case.get('late_rr', 0))]
+        late_subs = []
+        for i in range(case.get('late_streams', 0)):
+            s = Sub()
+            ep.request_stream(Payload(b'late-st%d' % i)).subscribe(s)
+            late_subs.append(s)
+        await loop.settle()
         res = {'mode': 'tcp', 'futures': ['pending' if not f.done() else ('cancelled' if f.cancelled() else ('error:' + type(f.exception()).__name__ if f.exception() else 'result')) for f in futs],
                'subs': [s.events for s in subs], 'handler_futures': ['cancelled' if f.cancelled() else ('pending' if not f.done() else 'done') for f in log['handler_futures']],
                'on_close': log['on_close'], 'sender_alive': ep._sender_task is not None and not ep._sender_task.done(),
                'receiver_alive': ep._receiver_task is not None and not ep._receiver_task.done(), 'written_after_end': len(log['wire']) - n_wire,
-               'table': sorted(ep._stream_control._streams.keys()), 'incoming': len(log['handler_futures'])}
+               'table': table_at_loss, 'incoming': len(log['handler_futures'])}
         try:
             await ep.close()
         except Exception:
             pass
         await loop.settle()
+        res['late_futures'] = ['pending' if not f.done() else ('cancelled' if f.cancelled() else ('error:' + type(f.exception()).__name__ if f.exception() else 'result')) for f in late_futs]
+        res['late_subs'] = [s.events for s in late_subs]
+        res['table_after_close'] = sorted(ep._stream_control._streams.keys())
         res['pulled_after_close'] = (len(log['pulls']) - log['pulls_at_close']) if log['pulls_at_close'] is not None else 0
         res['source_tasks_alive'] = sorted({getattr(tk.get_coro(), '__qualname__', '?') for tk in asyncio.all_tasks()
                                             if tk is not asyncio.current_task() and not tk.done() and 'Stream' in getattr(tk.get_coro(), '__qualname__', '')})
@@ -194,6 +208,12 @@ class C11(EngineProp):
             fails.append({'signature': 'sends-after-close', 'what': 'TransportTCP, %s: %d bytes written after the connection ended' % (how, obs['written_after_end'])})
         if obs['table']:
             fails.append({'signature': 'streams-left-registered', 'what': 'TransportTCP, %s: streams %s still registered' % (how, obs['table'])})
+        for i, f in enumerate(obs.get('late_futures', [])):
+            if not f.startswith('error'):
+                fails.append({'signature': 'request-pending-at-close-not-failed:' + case['role'], 'what': 'TransportTCP, %s: request-response %d issued after the loss and before close() is %s after close()' % (how, i, f)})
+        for i, ev in enumerate(obs.get('late_subs', [])):
+            if not ev or ev[-1].split(':')[0] != 'error':
+                fails.append({'signature': 'subscriber-pending-at-close-not-failed:' + case['role'], 'what': 'TransportTCP, %s: the subscriber of request-stream %d issued after the loss and before close() saw %s' % (how, i, ev)})
         if obs.get('pulled_after_close'):
             fails.append({'signature': 'publisher-produces-after-connection-loss', 'what': 'TransportTCP, %s: the application\'s generator behind a library stream source was advanced %d more times after the close notification' % (how, obs['pulled_after_close'])})
         if obs.get('source_tasks_alive'):
